@@ -233,7 +233,7 @@ package shaping
 //@   ensures [emptied] len(w.paragraph) == 0 && len(w.alt) == 0 && len(w.altSave) == 0 && len(w.line) == 0 && len(w.best) == 0
 //@   ensures [counters] w.altAdvance == 0 && w.altAdvanceSave == 0 && w.lineUsed == 0 && !w.bestInLine && !w.lineExhausted
 //@   ensures [capacity] cap(w.line) >= 100 && cap(w.alt) >= 10
-//@   modifies unspecified
+//@   modifies *w
 //
 //@ func wrapBuffer.startLine C13 C02
 //@   mode bv
@@ -275,8 +275,8 @@ package shaping
 //
 // newBreaker initialises the segmenter for the paragraph (C06 covers the segmenter itself).
 //@ trusted newBreaker
-//@   ensures [fresh] result != nil && result.totalRunes == len(text) && !result.isUnusedWord && !result.isUnusedGrapheme
-//@   modifies unspecified
+//@   ensures [fresh] fresh(result) && result.totalRunes == len(text) && !result.isUnusedWord && !result.isUnusedGrapheme
+//@   modifies *seg; all(rune); all(segmenter.breakAttr)
 //@ func LineWrapper.Prepare C13
 //@   mode bv
 //@   ensures [mapping-invalidated] !l.mapper.valid
